@@ -420,6 +420,26 @@ def run_ops_impl(wn, wnenv, scenario, batch_size=None):
                     outs.append({'ok': True})
                 except wn.Error as e:
                     outs.append({'ok': False, 'exc': str(e)[:200]})
+            elif op['k'] == 'ili' and 'lines' in op:
+                f = d / f'ili{k}.tsv'
+                f.write_text('\n'.join(op['lines']) + '\n', encoding='utf-8')
+                try:
+                    wn.add(f, progress_handler=None)
+                    outs.append({'ok': True})
+                except Exception as e:
+                    outs.append({'ok': False, 'exc': type(e).__name__ + ': ' + str(e)[:200]})
+            elif op['k'] == 'ilis':
+                import warnings
+                with warnings.catch_warnings():
+                    warnings.simplefilter('ignore')
+                    by = {}
+                    for i in op.get('ids', []):
+                        try:
+                            x = wn.ili(i)
+                            by[i] = [x.id, x.status, x.definition()]
+                        except wn.Error:
+                            by[i] = 'error'
+                    outs.append({'all': [[i.id, i.status, i.definition()] for i in wn.ilis()], 'by_id': by})
             elif op['k'] == 'ili':
                 f = d / f'ili{k}.tsv'
                 cols = op.get('header', ['ili', 'status', 'definition'])
